@@ -14,6 +14,18 @@ CLAIMS = {
  "C01": ("Proved (Lean, any commutative ring): the multinomial law of a range-based sampler — the N-shot generating function is the N-th power of the single-shot one (histogram_gf_abstract); the concrete law for the simulator model on the fragment F (no peek/peek_all/reset_all, stabilizer: no reset) and kernel-checked negative witnesses for the listed defects are being added to Q1t/Props/C01.lean and are listed in the evidence once present. The range-sampler model is tied to the code by re-executing every traced operation of the real simulator from its logged random draws (draw distribution parameters compared), and the implementation's histograms and 2-shot joint distributions are tested against the exact Born distribution of an independent reference semantics.",
          "PARTIAL: the law is not true of the pinned code outside F (known findings D2-D5); exact Binomial/WeightedIndex sampling by rand/rand_distr and f64 rounding are assumed; statistical tests support model validation, they are not the proof.",
          "DESIGN.md §5 C01", TECH),
+ "C07": ("Theorems for all control lists, targets, register words and range layouts: control_word_bit (bit j of the gathered word is bit control[j] of the register; first listed = least significant), control_word_panics_iff, conditional_histogram_order, ranges_partition + rle_is_maximal_runs (collect_conditional_ranges covers the shots in order with maximal constant-mask pieces inside one old range), conditional_per_shot (a shot's state gets the gate iff its control word equals the target; all other shots and the register untouched), bridges sim_ranges_agree / sim_control_word_agrees to the simulator model; negative witness zero_shots_panics. Correspondence: collect_conditional_ranges exhaustively for <=7 shots and random larger, circuit-level conditional gates on both backends with the execution trace.",
+         "What a gate does to a general state is C04/C06; circuit-level untouchedness of non-matching shots is checked on traces, the theorem is at the ranges level; shifts >= 64 panic only in overflow-checked builds.",
+         "DESIGN.md §5 C07", TECH),
+ "C08": ("Theorems over BitVec 64 for all words, positions and lists: write_frame/write_value/later_write_wins, reverse_bits_bit, shuffle_bits_bit (+ exact panic conditions), measure_all_bits (distinct targets; exact OR behaviour for repeated ones, with negative witnesses D14), write_confinement for every operation on both backends, gates_and_resets_frame, unwritten_zero, register_within_width, histogram_counts / histogram_vec_spec / string_key_bits / views_agree. Correspondence: private helpers through the verif hook and real circuits on basis states with generated bit assignments on both representations, all four register views compared.",
+         "PARTIAL for repeated measure_all/peek_all targets (known findings D14) and 0 shots (D9); basis-state gate action shared between model and spec (general gate action is C04).",
+         "DESIGN.md §5 C08", TECH),
+ "C09": ("Theorems about the Circuit object as a history machine, for every backend, circuit, store and call: execute_fresh (independent of prior quantum/classical state), execute_unfold (zero register, supplied state), reexecute_continues (execute;reexecute = one run of ops++ops from the fresh state), reexecute_from_stored, not_executed_errors, query_not_executed, param_read_at_run, resolve_depends_on_refs, direct_constant. Correspondence: generated call histories on a real Circuit with Rc<RefCell> parameters assigned between runs; every traced operation of every run re-executed by the model from the state the previous call ended in.",
+         "After an error inside a run the partially updated object is not modelled; FFI pointer parameters are exercised in C19.",
+         "DESIGN.md §5 C09", TECH),
+ "C10": ("Theorems: draws_prefix and same_prefix_same_result (the result of a run depends only on the consumed prefix of the draw stream), run_append; structural determinism of the model (randomness enters only at binomial/categorical nodes). The runtime part is observed: identically seeded runs of generated circuits are bit-identical and draw the same number of generator words twice in one process with the ambient generator consumed in between, on 16 threads, and in a separate process.",
+         "PARTIAL: absence of ambient nondeterminism in the Rust code (thread_rng, randomly seeded hashers, process state) is observed by the harness, not proved; hash-map iteration order is an oracle in the model.",
+         "DESIGN.md §5 C10", TECH),
 }
 NOT_YET = "check under construction in this round (not yet claimed)"
 
